@@ -84,6 +84,16 @@ var constructors = map[string]bool{
 	"ShardedMapOf.WalkDumpRestorer": true,
 }
 
+type unkAccess struct {
+	write, ctor bool
+	held        []string
+	ev          *pw.Event
+	fn          string
+}
+
+// userTypes: every field of these types is USER class (registration-time configuration of a transfer helper).
+var userTypes = map[string]bool{"HTTPTransfer": true}
+
 func checkC16(c *Ctx) {
 	r := c.R
 	r.Explanation = "A static race check in the guarded-by tradition: it does not claim 'no race exists' in general but decides that every field " +
@@ -159,8 +169,12 @@ func (c *Ctx) c16Classified() {
 		}
 	}
 	r.Count("fields_classified", n-len(missing))
+	c.unclassified = map[string]bool{}
+	for _, m := range missing {
+		c.unclassified[m] = true
+	}
 	if len(missing) > 0 {
-		r.Unknown("R16.6", "package", "fields without a protection class (classify them in the role table): "+strings.Join(missing, ", "))
+		r.Notes = append(r.Notes, "fields not in the role table, class inferred from their accesses (R16.6): "+strings.Join(missing, ", "))
 	} else {
 		r.OK("R16.6", "package", fmt.Sprintf("%d fields of component types classified; %d value types exempt", n, len(valueTypes)))
 	}
@@ -246,6 +260,7 @@ func (c *Ctx) c16Accesses() {
 	r.Count("entry_functions", len(entries))
 	nAcc := map[string]int{}
 	viol := map[string]bool{}
+	unk := map[string][]unkAccess{}
 	ownerCache := map[*types.Var]string{}
 	owner := func(f *types.Var) string {
 		if o, ok := ownerCache[f.Origin()]; ok {
@@ -306,6 +321,17 @@ func (c *Ctx) c16Accesses() {
 					key := own + "." + ev.Field.Name()
 					fc, ok := fieldTable[key]
 					if !ok {
+						if c.unclassified[key] && !userTypes[own] {
+							base := strings.TrimSuffix(ev.Path, "."+ev.Field.Name())
+							var held []string
+							for k, v := range ls[i] {
+								if v > 0 && !strings.HasPrefix(k, "R:") && strings.HasPrefix(k, base) {
+									held = append(held, strings.TrimPrefix(k, base))
+								}
+							}
+							fresh := ev.Recv != nil && (ev.Recv.Kind == pw.KAlloc || ev.Recv.Kind == pw.KZero) && !published[ev.Recv]
+							unk[key] = append(unk[key], unkAccess{write: ev.Kind == pw.EvFieldWrite, ctor: isCtor || inConstructor(ev) || fresh, held: held, ev: ev, fn: name})
+						}
 						continue
 					}
 					nAcc[fc.class]++
@@ -379,6 +405,57 @@ func (c *Ctx) c16Accesses() {
 	}
 	for k, v := range nAcc {
 		r.Count("accesses:"+k, v)
+	}
+	// R16.6: fields that are not in the role table get their class inferred from the accesses seen: written only during
+	// construction ⇒ IMMUTABLE; otherwise every access outside constructors must share one lock of the same object.
+	var ukeys []string
+	for k := range c.unclassified {
+		ukeys = append(ukeys, k)
+	}
+	sort.Strings(ukeys)
+	for _, k := range ukeys {
+		if userTypes[strings.Split(k, ".")[0]] {
+			r.OK("R16.6", k, "field of a USER-class type (registration-time), exempt")
+			continue
+		}
+		accs := unk[k]
+		writesOutside := false
+		for _, a := range accs {
+			if a.write && !a.ctor {
+				writesOutside = true
+			}
+		}
+		if !writesOutside {
+			r.OK("R16.6", k, fmt.Sprintf("inferred IMMUTABLE: %d accesses, no write outside construction", len(accs)))
+			continue
+		}
+		common := map[string]int{}
+		nOut := 0
+		for _, a := range accs {
+			if a.ctor {
+				continue
+			}
+			nOut++
+			for _, h := range a.held {
+				common[h]++
+			}
+		}
+		lock := ""
+		for h, cnt := range common {
+			if cnt == nOut {
+				lock = h
+			}
+		}
+		if lock != "" {
+			r.OK("R16.6", k, "inferred GUARDED by "+lock+fmt.Sprintf(" (%d accesses)", nOut))
+			continue
+		}
+		for _, a := range accs {
+			if a.write && !a.ctor {
+				r.Bad("R16.6", k, "unprotected-new-field@"+a.fn, c.Pos(a.ev.Pos), "field "+k+" is not in the role table and is written outside constructors without a lock common to all its accesses (and not through sync/atomic): concurrent public operations race on it", nil)
+				break
+			}
+		}
 	}
 	// one obligation per classified field
 	var keys []string
